@@ -46,5 +46,14 @@
  */
 int snoopy_output_stdoutoutput (char const * const logMessage, __attribute__((unused)) char const * const arg)
 {
-    return fprintf(stdout, "%s\n", logMessage);
+    int charCount = fprintf(stdout, "%s\n", logMessage);
+
+    /*
+     * Hand the record over to the OS right away: stdout is fully buffered when it
+     * is not a terminal, and a successful exec() discards whatever is still
+     * sitting in the stdio buffer of the replaced process image.
+     */
+    fflush(stdout);
+
+    return charCount;
 }
